@@ -117,7 +117,8 @@ def run_script(script, hashseed=None, timeout=120, repo_src=None):
         env.pop("PYTHONHASHSEED", None)
     src = (REPLAY_PRELUDE % (repo_src or REPO_SRC)) + script
     try:
-        r = subprocess.run([REPLAY_PY, "-W", "ignore", "-c", src], capture_output=True, text=True,
+        # the script goes in through stdin (a history replay can exceed the per-argument size limit of execve)
+        r = subprocess.run([REPLAY_PY, "-W", "ignore", "-"], input=src, capture_output=True, text=True,
                            timeout=timeout, env=env)
         return r.returncode, (r.stdout + r.stderr)[-2000:]
     except subprocess.TimeoutExpired:
